@@ -507,6 +507,25 @@ Section AnalysisProofs.
     destruct (Hr Hne) as [Hr1 Hr2]. cbn [acc Analysis.fresh] in *. rewrite Hr1, Hr2, Hp. cbn. auto.
   Qed.
 
+  (* a run() interrupted while batch number k is prepared: exactly the first k batches = the first k * bs traces were fed
+     (any convergence setting); nothing else changed *)
+  Theorem run_interrupted_thm : forall (cs : option nat) (st : ast) (c : container) (k : nat),
+    step_ok cs -> 1 <= c_bs c -> k <= length (c_rows c) / eff_bs cs (c_bs c) ->
+    let st' := run_interrupted X M V D St O Sc zero plus contrib comp sf model disc cs st c k in
+    acc st' = upd (acc st) (firstn (k * eff_bs cs (c_bs c)) (rows_of c))
+    /\ processed st' = processed st + k * eff_bs cs (c_bs c).
+  Proof.
+    intros cs st c k Hs Hbs Hk. cbv zeta. unfold Analysis.run_interrupted.
+    assert (Hebs := eff_bs_pos cs _ Hs Hbs).
+    destruct (fold_acc cs c (firstn k (batches_of (c_rows c) (eff_bs cs (c_bs c)))) st) as [Ha Hp]. cbv zeta in *.
+    rewrite Ha, Hp, batches_firstn_concat by assumption.
+    unfold Analysis.rows_of, Analysis.rows_sub. rewrite firstn_map. split; [reflexivity|].
+    rewrite firstn_length.
+    assert (k * eff_bs cs (c_bs c) <= length (c_rows c)).
+    { etransitivity; [apply Nat.mul_le_mono_r; exact Hk|]. rewrite Nat.mul_comm. apply Nat.mul_div_le. lia. }
+    lia.
+  Qed.
+
   (* two runs = one run on the concatenated container (same frame and chain), whatever the three batch sizes *)
   Theorem runs_concat_thm : forall (cs : option nat) (st : ast) (c1 c2 c12 : container),
     step_ok cs -> ok_container c1 -> ok_container c2 -> 1 <= c_bs c12 ->
